@@ -442,7 +442,7 @@ def _rest(ctx, ck) -> None:
         unknown = [w for v, w in verdicts if v == 'unknown']
         main = [w for v, w in verdicts if v == 'ok']
         if bad:
-            ck.bad('P4', cov, f'get_coverage: {bad[0]}: the hit histogram is not the add-accumulation of the per-index integer counts over the whole map', instance='hit histogram')
+            ck.bad('P4', cov, f'get_coverage: {bad[0]}: the hit histogram is not the add-accumulation of the per-index integer counts over the whole map', instance='hit histogram', semantic=True)
         elif unknown or not main:
             ck.incomplete('P4', cov, f'get_coverage returns a form the histogram schema does not cover: {(unknown or ["no return"])[0]}', instance='hit histogram')
         else:
